@@ -697,6 +697,48 @@ def rule_mask_vectors(ctx, cfg='prod-all'):
                     rc = origin_call(czf, 0)
                     mapped = {'closure': ci[0].split('::')[-1], 'element_is_result_of': (local_target(eng, rc) or rc.get('callee') or '?') if rc is not None else None}
                     mapped['ok'] = rc is not None and (local_target(eng, rc) or '').endswith('random_bits')
+        if mapped is not None and vec == 'r_5':
+            # mixed vector built by a mapped closure: `|(i, m)| if hidden.contains(&i) { random_bits(ln) } else { m.value.clone() }`
+            from flow import Frame, ClosureFrame
+            cpath = [p for p in prog.bodies if p.startswith(fn + '::{closure') and p.endswith(mapped['closure'])]
+            cfd = eng.fndep(cpath[0]) if cpath else None
+            res = {'random': False, 'revealed': False}
+            draws = 0
+            if cfd is not None:
+                cf = ClosureFrame(eng, cpath[0], Frame(eng, fn))
+                kidx = b.param_index('unrevealed_message_indexes')
+                cb = cfd.body
+                rnd_blocks = [bi for bi, t in cb.calls() if (local_target(eng, t) or '').endswith('random_bits')]
+                draws = len(rnd_blocks)
+                # blocks that produce the other (revealed) value: definitions of the returned local that are not the random draw
+                ret_defs = [bi for kind, bi, x in cfd.defs.get(0, [])]
+                other_blocks = [bi for bi in ret_defs if bi not in rnd_blocks and not any(cb.dominates(r, bi) and r != bi for r in rnd_blocks)]
+                for label, blist in (('random', rnd_blocks), ('revealed', other_blocks)):
+                    ok = bool(blist)
+                    for bi in blist:
+                        good = False
+                        for g in ga.block_gates(cfd, bi):
+                            if g.kind == 'call' and (g.what or '').endswith('contains') and len(g.operands) >= 2:
+                                a0 = cf.lift(g.operands[0])
+                                a1 = cf.lift(g.operands[1])
+                                on_list = any(strip(a)[0] == 'p' and strip(a)[1] == kidx for a in a0)
+                                idx_ok = not any(strip(a)[0] == 'p' and strip(a)[1] == kidx for a in a1)
+                                if on_list and idx_ok and g.truth == (label == 'random'):
+                                    good = True
+                        ok = ok and good
+                    res[label] = ok
+            yield Ob('RF-G2', '%s#%s:created-empty' % (fn, vec), True, 'the mask vector is collected from an iterator (one closure evaluation per element)', b.span,
+                     fact=creators, expected='Vec::new() or collect()')
+            yield Ob('RF-G2', '%s#%s:draw-per-element' % (fn, vec), draws >= 1, 'each random mask is drawn by a random_bits call inside the mapped closure', b.span,
+                     fact={'closure': mapped['closure'], 'random_bits_calls_in_closure': draws}, expected='random_bits inside the closure')
+            yield Ob('RF-G2', '%s#r_5:selection' % fn, res.get('random') and res.get('revealed'),
+                     'r_5[i] is a fresh mask iff the hidden-position list contains i (so every hidden attribute is blinded), the revealed value otherwise', b.span,
+                     fact=res, expected={'random': True, 'revealed': True})
+            s5 = [(bi, t) for bi, t in b.calls() if (t.get('callee') or '') in ('core::slice::<impl [T]>::get', 'std::vec::Vec::<T, A>::get', 'std::ops::Index::index')
+                  and t['args'][0]['k'] in ('copy', 'move') and fd.resolve_place(t['args'][0]['pl'])[0] == root]
+            ok5 = bool(s5) and any(any(strip(a)[0] == 'p' and strip(a)[1] == b.param_index('unrevealed_message_indexes') for a in fd.read_op(t['args'][1])) for bi, t in s5)
+            yield Ob('RF-G2', '%s#s_5:uses-hidden-positions' % fn, ok5 if s5 else None, 'the responses s_5 use r_5 at the hidden positions', b.span, fact=len(s5), expected='index from the hidden-position list')
+            continue
         if mapped is not None:
             yield Ob('RF-G2', '%s#%s:created-empty' % (fn, vec), True, 'the mask vector is collected from an iterator (one closure evaluation per element)', b.span,
                      fact=creators, expected='Vec::new() or collect()')
